@@ -184,7 +184,9 @@ func BuildOps(r *fw.Rand, n int) []Op {
 			case 2:
 				content = "héllo wörld " + from(r, "abcdefghijklmnopqrstuvwxyzäöüß€", 1+r.Intn(60))
 				if r.Bool() {
-					hints[gozxing.EncodeHintType_CHARACTER_SET] = []string{"UTF-8", "ISO-8859-15", "windows-1252"}[r.Intn(3)]
+					// canonical names, registered aliases and other spellings (the latter are refused on
+					// the unchanged tree, deterministically): name lookups hit the shared registry
+					hints[gozxing.EncodeHintType_CHARACTER_SET] = []string{"UTF-8", "ISO-8859-15", "windows-1252", "UTF8", "Cp1252", "utf-8", "latin1", "cp819", "csWindows1252", "iso-8859-15", "Windows-1252", "IBM437", "ascii"}[r.Intn(13)]
 				}
 			default:
 				content = "漢字テスト日本語"[:3*(1+r.Intn(7))]
@@ -194,6 +196,10 @@ func BuildOps(r *fw.Rand, n int) []Op {
 			scale := 1 + r.Intn(4)
 			pure := r.Bool()
 			multi := r.Intn(5) == 0
+			dcs := ""
+			if r.Intn(3) == 0 { // decode-side character-set hint, in assorted spellings
+				dcs = []string{"UTF-8", "utf-8", "ISO-8859-1", "latin1", "l1", "Shift_JIS", "shift_jis", "sjis", "csShiftJIS", "windows-1251", "cp1251", "koi8-r", "KOI8-R", "us-ascii", "gbk", "GB2312"}[r.Intn(16)]
+			}
 			ops = append(ops, Op{"qr", func() string {
 				w := qrcode.NewQRCodeWriter()
 				bm, err := w.Encode(content, gozxing.BarcodeFormat_QR_CODE, 0, 0, hints)
@@ -221,6 +227,9 @@ func BuildOps(r *fw.Rand, n int) []Op {
 				dh := map[gozxing.DecodeHintType]interface{}{}
 				if pure {
 					dh[gozxing.DecodeHintType_PURE_BARCODE] = true
+				}
+				if dcs != "" {
+					dh[gozxing.DecodeHintType_CHARACTER_SET] = dcs
 				}
 				res, rerr := qrcode.NewQRCodeReader().Decode(bmp, dh)
 				return out + " -> " + canon(res, rerr)
@@ -347,7 +356,7 @@ func BuildOps(r *fw.Rand, n int) []Op {
 						3, 4, float64(w)-6, 5, float64(w)-5, float64(h)-7, 4, float64(h)-5)
 					out += " " + matrixHash(g, ge)
 				}
-				for _, n := range []string{"UTF-8", "SJIS", "ISO8859_1", "GBK", "nope"} {
+				for _, n := range []string{"UTF-8", "SJIS", "ISO8859_1", "GBK", "nope", "utf-8", "latin1", "cp437", "csISOLatin2", "euc-kr", "big5", "Big5"} {
 					e, ok := common.GetCharacterSetECIByName(n)
 					if ok {
 						out += fmt.Sprintf(" %s=%d", n, e.GetValue())
